@@ -148,6 +148,9 @@ func (w *world) byzBuild(s sim.Step) (*specqbft.SignedMessage, spectypes.Operato
 		base.MsgType = specqbft.ProposalMsgType
 		if round > 1 {
 			rcs := w.poolFilter(func(m *specqbft.SignedMessage) bool {
+				if mode9 == 5 { // replay genuine round-changes of earlier rounds (stale justification)
+					return m.Message.MsgType == specqbft.RoundChangeMsgType && m.Message.Round <= round && m.Message.DataRound == 0 && m.Message.Height == w.height
+				}
 				return m.Message.MsgType == specqbft.RoundChangeMsgType && m.Message.Round == round && m.Message.Height == w.height
 			})
 			rcs = w.addByzOwn(rcs, specqbft.RoundChangeMsgType, round, [32]byte{}, r)
